@@ -166,11 +166,26 @@ func VF_C14_bc_system() {
 	bal := vfC14Amt("sender.balance")
 	w.sender = state.InitAccountState(vfAddrA, w.sdb, &types.State{Balance: bal.Bytes()}, &types.State{Balance: bal.Bytes()})
 
+	// the transaction under test; stage 1 is stateless, so it runs before the history is built
+	sh, pos := vfC14SysShape()
+	payload, doc := vf.NondetCallPos("ci", sh, pos)
+	amount := vfC14Amt("tx.amount")
+	body := w.body(payload, amount)
+	body.ChainIdHash = vf.Bytes("tx.chainIdHash", 2)
+	tx := &types.Tx{Body: body}
+	tx.Hash = tx.CalculateTxHash()
+
 	ver := vf.I32("forkVersion")
 	vf.Assume(ver >= 1)
 	vf.Assume(ver <= 4)
 	no := vf.U64("blockNo")
 	vf.Assume(no <= 1<<40)
+
+	// stage 1: stateless admission
+	if err := types.NewTransaction(tx).Validate(body.ChainIdHash, true); err != nil {
+		vf.Reach("C14.b.system.rejected1")
+		return
+	}
 	// history
 	pre := vf.Choice("pre", 3)
 	if pre >= 1 {
@@ -198,21 +213,8 @@ func VF_C14_bc_system() {
 		no += d
 	}
 
-	// the transaction under test
-	sh, pos := vfC14SysShape()
-	payload, doc := vf.NondetCallPos("ci", sh, pos)
-	amount := vfC14Amt("tx.amount")
-	body := w.body(payload, amount)
-	body.ChainIdHash = vf.Bytes("tx.chainIdHash", 2)
-	tx := &types.Tx{Body: body}
-	tx.Hash = tx.CalculateTxHash()
 	bi := &types.BlockHeaderInfo{No: no, ForkVersion: ver}
 
-	// stage 1: stateless admission
-	if err := types.NewTransaction(tx).Validate(body.ChainIdHash, true); err != nil {
-		vf.Reach("C14.b.system.rejected1")
-		return
-	}
 	// stage 2: stateful admission (mempool.validateTx)
 	var ctx *SystemContext
 	panicked := vfC14Panics(func() { ctx, err = ValidateSystemTx(w.sender.ID(), body, w.sender, w.scs, bi) })
